@@ -24,11 +24,41 @@ pub mod c10;
 pub mod c11;
 pub mod c12;
 
+/// Runs an explorer. The explorers only drive the library with inputs for which the property demands a
+/// regular outcome (and guard the calls where a clean panic is allowed), so a panic that is raised at a
+/// location INSIDE the constriction sources and escapes an explorer is a violation of the property being
+/// explored (reported with the panic's location and message; the run is marked as not exhaustive).
+/// A panic raised anywhere else (harness, std called from the harness) is a machinery failure: exit 2.
+fn run_guarded(r: Report, f: impl FnOnce(&Report)) -> i32 {
+    crate::isolate::install_first_panic_recorder();
+    let res = std::panic::catch_unwind(std::panic::AssertUnwindSafe(|| f(&r)));
+    if res.is_ok() {
+        return r.finish();
+    }
+    let (msg, loc) = crate::isolate::first_panic().unwrap_or_default();
+    let in_library = loc.starts_with('/') && loc.contains("/src/") && !loc.starts_with("/rustc/") && !loc.contains("/.cargo/") && !loc.contains("/verif/mc/");
+    if !in_library {
+        eprintln!("MACHINERY: explorer for {} panicked at {loc}: {msg}; no verdict", r.id);
+        return 2;
+    }
+    let file = loc.rsplit_once("/src/").map(|x| format!("src/{}", x.1)).unwrap_or(loc.clone());
+    if r.try_violation(crate::report::Violation {
+        identity: format!("panic inside constriction on an input the property covers | {file} | {msg}"),
+        detail: format!("the explorer for {} was stopped by a panic raised at {loc}: {msg} (exploration incomplete)", r.id),
+        case: serde_json::json!({"kind": "none"}),
+    }).is_err() {
+        eprintln!("MACHINERY: explorer for {} panicked at {loc}: {msg} while holding the report lock; no verdict", r.id);
+        return 2;
+    }
+    r.cap_hit(format!("exploration stopped by a panic inside constriction at {loc}"));
+    r.finish()
+}
+
 macro_rules! props {
     ($($id:literal => $m:ident),* $(,)?) => {
         pub fn run(id: &str, tier: Tier) -> Option<i32> {
             match id {
-                $($id => { let r = Report::new($id, tier); $m::run(&r); Some(r.finish()) })*
+                $($id => { let r = Report::new($id, tier); Some(run_guarded(r, |r| $m::run(r))) })*
                 _ => None,
             }
         }
